@@ -30,8 +30,15 @@ def log(*a):
 
 def run(cmd, cwd=None, env=None, timeout=None, check=False, stdin=None):
     t0 = time.time()
-    p = subprocess.run(cmd, cwd=cwd, env=env, timeout=timeout, stdout=subprocess.PIPE,
-                       stderr=subprocess.STDOUT, text=True, input=stdin, errors='replace')
+    try:
+        p = subprocess.run(cmd, cwd=cwd, env=env, timeout=timeout, stdout=subprocess.PIPE,
+                           stderr=subprocess.STDOUT, text=True, input=stdin, errors='replace')
+    except subprocess.TimeoutExpired as e:
+        # a step that does not finish is a result (reported by the caller), not a crash of the check
+        out = e.stdout if isinstance(e.stdout, str) else (e.stdout or b'').decode(errors='replace')
+        if check:
+            raise RuntimeError('command timed out: %s' % (cmd,))
+        return 124, (out or '') + '\n[timed out after %ss]' % timeout, time.time() - t0
     dt = time.time() - t0
     if check and p.returncode != 0:
         log(p.stdout[-4000:])
@@ -605,6 +612,33 @@ def run_sim(family, seed, count, scenario_file=None, keep_trace=False):
 # M3: free-running stress under the race detector
 # ---------------------------------------------------------------------------
 
+def trim_abnormal(trace, keep=3000):
+    """A free-running scenario that ended abnormally (hang, panic, crash) is decided by that
+    status; a runaway endpoint can have logged millions of events meanwhile. Keep the first
+    [keep] events of such scenarios only, so that the monitors (which are not linear) finish."""
+    try:
+        lines = open(trace, errors='replace').read().split('\n')
+    except OSError:
+        return
+    status = {}
+    for l in lines:
+        if l.startswith('X '):
+            f = l.split(' ')
+            status[f[1]] = f[2] if len(f) > 2 else 'ok'
+    out, cur, n, changed = [], None, 0, False
+    for l in lines:
+        if l.startswith('S '):
+            cur, n = l.split(' ')[1], 0
+        if l.startswith('E ') and cur is not None and status.get(cur, 'ok') != 'ok':
+            n += 1
+            if n > keep:
+                changed = True
+                continue
+        out.append(l)
+    if changed:
+        open(trace, 'w').write('\n'.join(out))
+
+
 def run_stress(family, seed, count):
     os.makedirs(os.path.join(VERIF, '.cache'), exist_ok=True)
     key = sim_cache_key('stress:' + family, seed, count)
@@ -634,6 +668,7 @@ def run_stress(family, seed, count):
         why = 'panic' if 'panic: ' in o else 'crash'
         tail = ' | '.join(x.strip() for x in o.split('\n') if 'grpctunnel' in x)[:1500]
         open(trace, 'a').write('X %s %s %s\n' % (last, why, tail))
+    trim_abnormal(trace)
     rc2, mo, dt2 = run(['bash', '-c', 'ulimit -s unlimited 2>/dev/null; exec "$0" "$@"', os.path.join(BIN, 'vmodel'), 'trace', trace], timeout=1800)
     if rc2 != 0:
         res['error'] = 'validator failed (exit %d): %s' % (rc2, mo[-1500:])
